@@ -9,6 +9,8 @@ package main
 //   proxy_retry_checks_direct : doRetry has a top-level `if s.directResponse { return }` (go/ast)
 //   proxy_retry_refinalizes : doRetry calls FinalizeRequestHeaders (go/ast); proxy_timers_reset_stream : onPerReqTimeout and
 //                          onResponseTimeout call upstreamRequest.resetStream() (go/ast)
+//   proxy_retry_clears_reuse / proxy_setupretry_clears_reuse : atomic.StoreUint32(&s.reuseBuffer, 0) in doRetry / in the
+//                          `if !endStream` block of setupRetry (go/ast)
 //   proxy_hijack_clears_body : sendHijackReply assigns downstreamRespDataBuf = nil at top level (go/ast)
 //   proxy_put_resets_cursor : streamfilter.PutStreamFilterChain (or a chain method it calls) assigns 0 to both cursors (go/ast)
 //   proxy_default_global_ms : types.GlobalTimeout (evaluated)
@@ -248,6 +250,47 @@ func genProxyTokens(repo string) (string, error) {
 	}
 	fmt.Fprintf(&b, "Definition proxy_hijack_clears_body : bool := %v.\n", hcb)
 
+	// --- where reuseBuffer is cleared on the retry path: in doRetry?  in the `!endStream` block of setupRetry?
+	storesReuse := func(n ast.Node) bool {
+		found := false
+		ast.Inspect(n, func(x ast.Node) bool {
+			if ce, isCall := x.(*ast.CallExpr); isCall {
+				if se, isSel := ce.Fun.(*ast.SelectorExpr); isSel && se.Sel.Name == "StoreUint32" && len(ce.Args) == 2 {
+					if u, isU := ce.Args[0].(*ast.UnaryExpr); isU {
+						if f2, isF := u.X.(*ast.SelectorExpr); isF && f2.Sel.Name == "reuseBuffer" {
+							if lit, isLit := ce.Args[1].(*ast.BasicLit); isLit && lit.Value == "0" {
+								found = true
+							}
+						}
+					}
+				}
+			}
+			return true
+		})
+		return found
+	}
+	rcr, scr := false, false
+	if dr := FindFunc(f, "downStream", "doRetry"); dr != nil {
+		rcr = storesReuse(dr.Body)
+	} else {
+		ok = false
+	}
+	if sr := FindFunc(f, "downStream", "setupRetry"); sr != nil {
+		for _, st := range sr.Body.List {
+			if is, isIf := st.(*ast.IfStmt); isIf {
+				if u, isU := is.Cond.(*ast.UnaryExpr); isU && u.Op == token.NOT {
+					if id, isID := u.X.(*ast.Ident); isID && id.Name == "endStream" && storesReuse(is.Body) {
+						scr = true
+					}
+				}
+			}
+		}
+	} else {
+		ok = false
+	}
+	fmt.Fprintf(&b, "Definition proxy_retry_clears_reuse : bool := %v.\n", rcr)
+	fmt.Fprintf(&b, "Definition proxy_setupretry_clears_reuse : bool := %v.\n", scr)
+
 	// --- retry budget default and reset() shape
 	_, rf, err := ParseGoFile(repo, "pkg/proxy/retrystate.go")
 	if err != nil {
@@ -318,7 +361,7 @@ func genProxyTokens(repo string) (string, error) {
 		}
 	}
 	fmt.Fprintf(&b, "Definition proxy_default_global_ms : Z := %d.\n", int64(types.GlobalTimeout/time.Millisecond))
-	b.WriteString("Definition proxy_src : srcp :=\n  {| loop_bound := proxy_loop_bound; min_budget := proxy_min_budget; reset_guarded := proxy_reset_guarded;\n     direct_clears_again := proxy_direct_clears_again;\n     direct_cancels_retry := proxy_direct_cancels_retry; direct_resets_upstream := proxy_direct_resets_upstream;\n     put_resets_cursor := proxy_put_resets_cursor;\n     retry_checks_direct := proxy_retry_checks_direct; retry_refinalizes := proxy_retry_refinalizes;\n     timers_reset_stream := proxy_timers_reset_stream; hijack_clears_body := proxy_hijack_clears_body;\n     reason_code := proxy_reason_code |}.\n")
+	b.WriteString("Definition proxy_src : srcp :=\n  {| loop_bound := proxy_loop_bound; min_budget := proxy_min_budget; reset_guarded := proxy_reset_guarded;\n     direct_clears_again := proxy_direct_clears_again;\n     direct_cancels_retry := proxy_direct_cancels_retry; direct_resets_upstream := proxy_direct_resets_upstream;\n     put_resets_cursor := proxy_put_resets_cursor;\n     retry_checks_direct := proxy_retry_checks_direct; retry_refinalizes := proxy_retry_refinalizes;\n     timers_reset_stream := proxy_timers_reset_stream; hijack_clears_body := proxy_hijack_clears_body;\n     retry_clears_reuse := proxy_retry_clears_reuse; setupretry_clears_reuse := proxy_setupretry_clears_reuse; reason_code := proxy_reason_code |}.\n")
 	fmt.Fprintf(&b, "Definition ProxyTokens_translator_ok := %v.\n", ok)
 	return b.String(), nil
 }
